@@ -20,12 +20,14 @@ R = {
   ('fold-helper: NULL members converted', 'funcs2-r2', 'functions.go', '\\t\\tif item == nil \\{\\n\\t\\t\\tcontinue\\n\\t\\t\\}\\n\\t\\tnumber, err := ToFloat64\\(item\\)\\n\\t\\tif err != nil \\{\\n\\t\\t\\treturn 0, false, 0, err', '\t\tnumber, err := ToFloat64(item)\n\t\tif err != nil {\n\t\t\treturn 0, false, 0, err'),
   ('fold-helper (found flag): flag set only for non-zero numbers', 'funcs3-r1', 'functions.go', '\\t\\tacc = step\\(acc, number\\)\\n\\t\\tfound = true', '\t\tacc = step(acc, number)\n\t\tfound = found || number != 0'),
   ('fold-helper (found flag): MAX ignores the flag', 'funcs3-r1', 'functions.go', '\\tif err != nil \\|\\| !found \\{\\n\\t\\treturn nil, err\\n\\t\\}\\n\\treturn max, nil', '\tif err != nil {\n\t\treturn nil, err\n\t}\n\t_ = found\n\treturn max, nil'),
+  ('registration table: min and max swapped', 'funcs4-r8', 'functions.go', '\\{"min", MinFunc, true\\},\\n\\t\\t\\{"max", MaxFunc, true\\},', '{"min", MaxFunc, true},\n\t\t{"max", MinFunc, true},'),
  ],
  'C04': [
   ('equi-analysis worklist: only the left operand queued', 'joinsel3-r8', 'join.go', 'pending = append\\(pending, e.Right, e.Left\\)', 'pending = append(pending, e.Left)'),
   ('equi-analysis worklist: only != rejected', 'joinsel3-r8', 'join.go', '\\t\\t\\t\\tif e.Operator != sqlparser.EqualOp \\{\\n\\t\\t\\t\\t\\treturn false\\n\\t\\t\\t\\t\\}\\n', '\t\t\t\tif e.Operator == sqlparser.NotEqualOp {\n\t\t\t\t\treturn false\n\t\t\t\t}\n'),
   ('key builder: length without terminator', 'joinsel3-r4', 'join.go', "\\t\\t\\tkey.WriteByte\\(':'\\)\\n", ''),
   ('key builder: separator instead of length', 'joinsel3-r4', 'join.go', "\\t\\t\\tkey.WriteString\\(strconv.Itoa\\(len\\(text\\)\\)\\)\\n\\t\\t\\tkey.WriteByte\\(':'\\)\\n", '\t\t\tkey.WriteByte(58)\n\t\t\t_ = strconv.Itoa\n'),
+  ('[]byte key: length without terminator', 'joinsel4-r4', 'join.go', "\\t\\t\\tkey = append\\(key, ':'\\)\\n", ''),
  ],
  'C05': [
   ('window helper: limit not clamped', 'pipeline2-r5', 'plsql.go', '\\tif limit >= len\\(rs\\) \\{\\n\\t\\tlimit = len\\(rs\\)\\n\\t\\}\\n\\treturn rs\\[:limit\\]', '\treturn rs[:limit]'),
@@ -36,6 +38,10 @@ R = {
  'C07': [
   ('cteThunk record: rows stored as a plain value', 'eval3-r7', 'plsql.go', '\\tthunk.data\\[thunk.cte.ID.String\\(\\)\\] = CteEvaluation\\(func\\(\\) \\(any, error\\) \\{\\n\\t\\treturn rs, nil\\n\\t\\}\\)\\n', '\tthunk.data[thunk.cte.ID.String()] = rs\n'),
   ('cteThunk record: the evaluating thunk put back', 'eval3-r7', 'plsql.go', '\\tthunk.data\\[thunk.cte.ID.String\\(\\)\\] = CteEvaluation\\(func\\(\\) \\(any, error\\) \\{\\n\\t\\treturn rs, nil\\n\\t\\}\\)\\n', '\tthunk.data[thunk.cte.ID.String()] = CteEvaluation(thunk.evaluate)\n'),
+ ],
+ 'C08': [
+  ('accumulator mix: empty arrays kept', 'joinsel4-r5', 'selector.go', 'if array, ok := item.\\(\\[\\]any\\); ok \\{\\n\\t\\t\\tslice = appendMixed\\(slice, array\\)', 'if array, ok := item.([]any); ok && len(array) > 0 {\n\t\t\tslice = appendMixed(slice, array)'),
+  ('accumulator mix: accumulates onto the data', 'joinsel4-r5', 'selector.go', 'return appendMixed\\(make\\(\\[\\]any, 0\\), data\\)', 'return appendMixed(data[:0], data)'),
  ],
  'C09': [
   ('dimension loop: each skips a dimension', 'joinsel2-r7', 'selector.go', 'rs, err := SelectDimension\\(item, dimensions\\)', 'rs, err := SelectDimension(item, dimensions[1:])'),
@@ -62,11 +68,24 @@ R = {
   ('pending column: other row', 'pipeline2-r3', 'plsql.go', 'column := pendingColumn\\{row: data, name: name, value: pending\\}', 'column := pendingColumn{row: current, name: name, value: pending}'),
   ('pending column: pointer stored', 'pipeline2-r3', 'plsql.go', '\\tcolumn.row\\[column.name\\] = value\\n', '\tcolumn.row[column.name] = column.value\n\t_ = value\n'),
   ('pending column: not registered', 'pipeline2-r3', 'plsql.go', 'query.postProcessors = append\\(query.postProcessors, column.settle\\)', '_ = column.settle'),
+  ('awaitCall record: no second wait', 'eval4-r1', 'plsql.go', '\\tcall.query.wg.Wait\\(\\)\\n', ''),
  ],
  'C15': [
   ('non-generic compare: left operand truncated', 'funcs3-r3', 'compare/compare.go', 'return Cmp\\(As\\[float64\\]\\(a\\), t\\)', 'return Cmp(As[int64](a), t)'),
   ('non-generic compare: float32 dropped from the dispatch', 'funcs3-r3', 'compare/compare.go', 'case int, int32, int64, int16, int8, uint, uint64, uint32, uint16, byte, float32, float64:\\n\\t\\t\\{\\n\\t\\t\\treturn compare\\(a, b\\)', 'case int, int32, int64, int16, int8, uint, uint64, uint32, uint16, byte, float64:\n\t\t{\n\t\t\treturn compare(a, b)'),
   ('non-generic compare: operands swapped and negated', 'funcs3-r3', 'compare/compare.go', 'return Cmp\\(As\\[float64\\]\\(a\\), t\\)', 'return -Cmp(As[float64](t), a)'),
+  ('form B: signs swapped', 'funcs4-r6', 'compare/compare.go', '\\tif x > y \\{\\n\\t\\treturn 1\\n\\t\\}\\n\\treturn -1', '\tif x > y {\n\t\treturn -1\n\t}\n\treturn 1'),
+  ('form B: uint64 truncated', 'funcs4-r6', 'compare/compare.go', '\\tcase uint64:\\n\\t\\treturn float64\\(t\\), true', '\tcase uint64:\n\t\treturn float64(int32(t)), true'),
+  ('form B: float32 not a number', 'funcs4-r6', 'compare/compare.go', '\\tcase float32:\\n\\t\\treturn float64\\(t\\), true\\n', ''),
+  ('form B: texts in the wrong order', 'funcs4-r6', 'compare/compare.go', '\\ty, ok := number\\(b\\)\\n\\tif !ok \\{\\n\\t\\treturn strings.Compare\\(text\\(a\\), text\\(b\\)\\)', '\ty, ok := number(b)\n\tif !ok {\n\t\treturn strings.Compare(text(b), text(a))'),
+ ],
+ 'C16': [
+  ('unused scan by slices.Index: result ignored', 'funcs4-r4', 'sanitizer/sanitizer.go', '\\tif i := slices.Index\\(argUse, false\\); i >= 0 \\{\\n\\t\\treturn "", fmt.Errorf\\("unused argument: %d", i\\)\\n\\t\\}\\n', '\t_ = slices.Index(argUse, false)\n'),
+  ('merged quoted state: backslash arm removed', 'funcs4-r5', 'sanitizer/sanitizer.go', '\\t\\tcase .\\\\\\\\.:\\n\\t\\t\\t// the parser honours backslash escapes: the next rune is part of the literal\\n\\t\\t\\t_, width = utf8.DecodeRuneInString\\(l.src\\[l.pos:\\]\\)\\n\\t\\t\\tl.pos \\+= width\\n\\t\\tcase quote:', '\t\tcase quote:'),
+  ('merged quoted state: double-quote state ends at the single quote', 'funcs4-r5', 'sanitizer/sanitizer.go', 'func doubleQuoteState\\(l \\*sqlLexer\\) stateFn \\{\\n\\treturn quotedState\\(l, .".\\)', 'func doubleQuoteState(l *sqlLexer) stateFn {\n\treturn quotedState(l, 39)'),
+ ],
+ 'C17': [
+  ('quoted-region helper: ends at the escaped byte', 'funcs4-r3', 'processors.go', '\\t\\t\\tbuffer.WriteByte\\(str\\[i\\+1\\]\\)\\n\\t\\t\\ti\\+\\+\\n\\t\\t\\}\\n\\t\\}\\n\\treturn i - 1, nil', '\t\t\tbuffer.WriteByte(str[i+1])\n\t\t\tc = str[i+1]\n\t\t\ti++\n\t\t}\n\t}\n\treturn i - 1, nil'),
  ],
  'C18': [
   ('table-hash: constructors swapped', 'funcs2-r1', 'functions.go', '"sha1":   sha1.New,\\n\\t"sha256": sha256.New', '"sha1":   sha256.New,\n\t"sha256": sha1.New'),
@@ -79,5 +98,8 @@ R = {
   ('rowSorter: comparator error ignored', 'pipeline3-r4', 'sort.go', '\\tif err != nil \\{\\n\\t\\tpanic\\(err\\)\\n\\t\\}\\n\\treturn rs\\n', '\t_ = err\n\treturn rs\n'),
   ('joinCollector: error not kept', 'joinsel3-r2', 'join.go', '\\t\\t\\tcollector.mut.Lock\\(\\)\\n\\t\\t\\tif collector.firstErr == nil \\{\\n\\t\\t\\t\\tcollector.firstErr = err\\n\\t\\t\\t\\}\\n\\t\\t\\tcollector.mut.Unlock\\(\\)', '\t\t\t_ = err'),
   ('joinCollector: first error never returned', 'joinsel3-r2', 'join.go', '\\tif collector.firstErr != nil \\{\\n\\t\\treturn nil, collector.firstErr\\n\\t\\}\\n\\treturn collector.slice, nil', '\treturn collector.slice, nil'),
+ ],
+ 'C20': [
+  ('registration table: setvar not immediate', 'funcs4-r8', 'functions.go', '\\{"setvar", SetVarFunc, true\\}', '{"setvar", SetVarFunc, false}'),
  ],
 }
